@@ -159,10 +159,11 @@ theorem init_R {prog : Prog} {e : Exec} {w : World} (hwf : WF prog) (hf : FreshE
 /-! ### runs -/
 
 /-- the run never activates a thread that does not exist: at every step taken, the active thread has a control
-record.  (A path to replay can name any thread index.  Real loom indexes its thread vector with it and would
-panic; the twin's `Threads.get` answers with a default record, and `World.ctlOf` with the default control record,
-which would run the main body a second time.  Paths produced by the exploration itself always name existing
-threads.) -/
+record.  (A path to replay can name any thread index.  Real loom indexes its thread vector with it and panics;
+so does the twin since `Exec.schedule` checks the index (`.internal 31`).  Before that check the twin's
+`Threads.get` answered with a default record, and `World.ctlOf` with the default control record, which ran the
+main body a second time; `saneRun` was then a hypothesis of the refinement theorem.  It is now a THEOREM for every
+run from a fresh execution: `run_sane`.) -/
 def saneRun : Nat → World → Bool
   | 0, _ => true
   | fuel + 1, w =>
@@ -171,6 +172,17 @@ def saneRun : Nat → World → Bool
       match w.stepActive with
       | .error _ => true
       | .ok w' => saneRun fuel w'
+
+/-- the initial world: the main thread, active, in the table -/
+theorem init_inRange {prog : Prog} {e : Exec} {w : World} (hf : FreshExec e)
+    (h : World.init prog e = .ok w) : InRange w := by
+  obtain ⟨_, _, _, _, hth, _⟩ := init_shape h
+  intro _
+  show w.exec.threads.activeId < w.exec.threads.threads.length
+  rw [hth, hf.1]
+  unfold Threads.activeId
+  rw [hf.2]
+  exact Nat.lt_succ_self 0
 
 theorem triple_step {evs evs' : List Event} {t : Nat} {l : Option (Nat × Ret)}
     (h : evs'.map triple = SCData.label t l ++ evs.map triple) :
@@ -183,8 +195,8 @@ theorem triple_step {evs evs' : List Event} {t : Nat} {l : Option (Nat × Ret)}
 
 /-- the simulation along `runLoop` -/
 theorem runLoop_sim (p : Prog) (d0 : SCData) (hwf : WF p) :
-    ∀ (fuel : Nat) (w w' : World) (s : SCData), w.prog = p → R w s →
-      SCData.Run p d0 (w.events.reverse.map triple) s → saneRun fuel w = true →
+    ∀ (fuel : Nat) (w w' : World) (s : SCData), w.prog = p → R w s → InRange w →
+      SCData.Run p d0 (w.events.reverse.map triple) s →
       World.runLoop fuel w = (w', none) →
       ∃ s', SCData.Run p d0 (w'.events.reverse.map triple) s' ∧ R w' s' ∧ w'.prog = p := by
   intro fuel
@@ -193,27 +205,50 @@ theorem runLoop_sim (p : Prog) (d0 : SCData) (hwf : WF p) :
     intro w w' s _ _ _ _ h
     simp [World.runLoop] at h
   | succ fuel ih =>
-    intro w w' s hp hR hrun hsane h
+    intro w w' s hp hR hrange hrun h
     unfold World.runLoop at h
-    unfold saneRun at hsane
     split at h
     · cases h
       exact ⟨s, hrun, hR, hp⟩
     · next hact =>
-      simp only [hact, if_false, Bool.and_eq_true, decide_eq_true_eq, Bool.false_eq_true] at hsane
-      obtain ⟨hin, hsane⟩ := hsane
+      have hact' : w.ths.isActive = true := by simpa using hact
+      have hin : w.tid < w.ctl.length := by rw [hR.lenCtl]; exact hrange hact'
       split at h
       · cases h
       · next w1 hstep =>
-        rw [hstep] at hsane
-        simp only at hsane
+        have hr1 : InRange w1 := step_inRange (by rw [hp]; exact hwf) hR hin hstep
         obtain ⟨hp1, hsim⟩ := step_sim (by rw [hp]; exact hwf) hR hin hstep
         rcases hsim with ⟨hR1, hev⟩ | ⟨l, s1, hen, hst, hR1, hev⟩
-        · exact ih w1 w' s (hp1.trans hp) hR1 (by rw [hev]; exact hrun) hsane h
+        · exact ih w1 w' s (hp1.trans hp) hR1 hr1 (by rw [hev]; exact hrun) h
         · rw [hp] at hen hst
-          refine ih w1 w' s1 (hp1.trans hp) hR1 ?_ hsane h
+          refine ih w1 w' s1 (hp1.trans hp) hR1 hr1 ?_ h
           rw [triple_step hev]
           exact SCData.Run.step hrun hen hst
+
+/-- every run from a related world whose active thread exists is sane: at every step the active thread has a
+control record (whether or not the run completes, panics or runs out of fuel) -/
+theorem saneRun_of_R (p : Prog) (hwf : WF p) :
+    ∀ (fuel : Nat) (w : World) (s : SCData), w.prog = p → R w s → InRange w → saneRun fuel w = true := by
+  intro fuel
+  induction fuel with
+  | zero => intro w s _ _ _; rfl
+  | succ fuel ih =>
+    intro w s hp hR hrange
+    unfold saneRun
+    split
+    · rfl
+    · next hact =>
+      have hact' : w.ths.isActive = true := by simpa using hact
+      have hin : w.tid < w.ctl.length := by rw [hR.lenCtl]; exact hrange hact'
+      simp only [hin, decide_true, Bool.true_and]
+      split
+      · rfl
+      · next w1 hstep =>
+        have hr1 : InRange w1 := step_inRange (by rw [hp]; exact hwf) hR hin hstep
+        obtain ⟨hp1, hsim⟩ := step_sim (by rw [hp]; exact hwf) hR hin hstep
+        rcases hsim with ⟨hR1, _⟩ | ⟨_, s1, _, _, hR1, _⟩
+        · exact ih w1 s (hp1.trans hp) hR1 hr1
+        · exact ih w1 s1 (hp1.trans hp) hR1 hr1
 
 end Refine
 end LoomVerif
